@@ -54,9 +54,10 @@ def histories(ck):
             atoms.append(("edit", i, inc, b))
             atoms.append(("editroot", i, inc, b))
         atoms.append(("root", i, None, None))
+        atoms.append(("rootbare", i, None, None))      # set_root_file alone: the text is not sent again
     for k in range(1, (3 if quick else 4) + 1):
         for combo in itertools.product(atoms, repeat=k):
-            if quick and k == 3 and rng.random() > 0.03:
+            if quick and k == 3 and rng.random() > 0.02:
                 continue
             if (not quick) and k == 4 and rng.random() > 0.01:
                 continue
@@ -66,9 +67,9 @@ def histories(ck):
         h = [("edit", i, (), "class C%d;" % i) for i in range(n)] + [("root", rng.randrange(n), None, None)]
         for _ in range(rng.randrange(4, 11)):
             i = rng.randrange(n)
-            kind = rng.choice(["edit", "edit", "editroot", "root"])
-            if kind == "root":
-                h.append(("root", i, None, None))
+            kind = rng.choice(["edit", "edit", "editroot", "root", "rootbare"])
+            if kind in ("root", "rootbare"):
+                h.append((kind, i, None, None))
             else:
                 inc, b = rng.choice(variants(i, n))
                 h.append((kind, i, inc, b))
@@ -131,7 +132,12 @@ def run(ck):
             return texts[t], t
         for kind, i, inc, body in h:
             p = FILES[i]
-            if kind == "root":
+            if kind == "rootbare":
+                ops.append(["rootbare", p])
+                if i in fs:
+                    mops.append("r:%d" % i)
+                    root = i
+            elif kind == "root":
                 ops.append(["root", p])
                 if i in fs:
                     mops.append("e:%d:%d" % (i, fs[i]))
@@ -163,7 +169,7 @@ def run(ck):
     ndis = 0
     for h, ra, rb, ml in zip(metas, a, b, mlines):
         key = json.dumps(h)
-        if sum(1 for op in h[4:] if op[0] in ("root", "editroot") or op[2]) > 0:
+        if sum(1 for op in h[4:] if op[0] in ("root", "rootbare", "editroot") or op[2]) > 0:
             nontriv.add(core.sig_hash(key))
         sig = ["C07", "history", core.sig_hash(key)]
         case = {"history": [[k, FILES[i], (text_of(inc, body) if inc is not None else None)] for k, i, inc, body in h]}
@@ -183,7 +189,7 @@ def run(ck):
                 links = f[1][2] or []
                 text_f = None
                 for k, i, inc, body in h:
-                    if k != "root" and FILES[i] == f[0]:
+                    if k not in ("root", "rootbare") and FILES[i] == f[0]:
                         text_f = text_of(inc, body)
                 inc_map = ",".join("%d>%d" % (text_f[: l[0]].count("\n"), FILES.index(l[2])) for l in links)
                 rows.append("%d=%s" % (FILES.index(f[0]), inc_map))
